@@ -2,11 +2,12 @@ from props import S
 
 CFG = {
     "properties_file": "Properties/C06.v",
-    "corr_files": ["Corr/C06.v"],
-    "streams": [S("C06", "drive_nfs", 100, 5000)],
+    "corr_files": ["Corr/C06.v", "Corr/C06t.v"],
+    "streams": [S("C06", "drive_nfs", 100, 5000), S("C06t", "drive_handles", 200, 10000)],
     "rule": "request histories over a populated tree with handle limit in {1,2,3,4,6,10} so that values pass through "
             "eviction and the free list and are reissued; LOOKUP/READDIRPLUS/MNT/CREATE/MKDIR interleaved with requests that "
-            "reuse every handle value seen so far; non-trivial = some value was returned more than once",
+            "reuse every handle value seen so far; non-trivial = some value was returned more than once. C06t: Allocate/Release/ReleaseAll histories on the real "
+            "FileHandleMap with frequent ReleaseAll (Unexport/Close then re-export); non-trivial = contains a ReleaseAll",
     "assumptions": ["'served against path p' is read off the reply: fileid = FNV-1a-64(p)"],
     "level_text": "The full statement is false of the code by design (ids are recycled through the free list; the suite "
                   "asserts it): C06_refuted is a kernel-checked witness and the check reports it as known finding k=1. Proved "
